@@ -1003,6 +1003,9 @@ async fn gen_trace(id: u64, rng: &mut Rng, tier: &str) -> String {
                         if rng.chance(1, 25) {
                             deps.push(rng.below(40) as u32); // maybe unknown / maybe a task of an earlier submit
                         }
+                        if i + 1 < n && rng.chance(1, 14) {
+                            deps.push(base + i + 1); // a dependency on a task listed LATER in the same submit (must be rejected)
+                        }
                         if !deps.is_empty() && rng.chance(1, 8) {
                             let d = deps[rng.below(deps.len() as u64) as usize];
                             deps.push(d); // the same dependency named twice
